@@ -685,8 +685,6 @@ fn expand_with_label_case(secret: &[u8], label: &[u8], context: &[u8]) {
 
     assert!(r.is_ok());
     let o = r.unwrap();
-    kani::cover!(explicit && len == 0xffff);
-    kani::cover!(!explicit);
     assert!(p.calls() == 1);
     assert!(p.is(
         0,
@@ -745,7 +743,6 @@ fn c13_kdf_expand_with_label_provider_error() {
     kani::assume(len <= 0xffff);
     let explicit: bool = kani::any();
     let r = kdf_expand_with_label(&p, &secret, &label, &context, explicit.then_some(len));
-    kani::cover!(true);
     assert!(is_provider_error(&r));
     assert!(p.calls() == 1);
     core::mem::forget(r);
@@ -764,7 +761,6 @@ fn c13_kdf_derive_secret_bounded_4() {
         let r = kdf_derive_secret(&p, &secret, label);
         assert!(r.is_ok());
         let o = r.unwrap();
-        kani::cover!(label.len() == 4);
         assert!(p.calls() == 1);
         assert!(p.is(0, Op::Expand, &secret, &rfc_kdf_label(NH as u16, label, &[]), NH));
         assert!(is_out(&o, 1, NH));
@@ -842,7 +838,6 @@ fn c13_from_epoch_secret() {
     let r = KeySchedule::from_epoch_secret(&p, &epoch_secret, TREE_SIZE);
     assert!(r.is_ok());
     let r = r.ok().unwrap();
-    kani::cover!(true);
     check_epoch_secrets(&p, 0, &epoch_secret, &r);
     assert!(r.joiner_secret.0.is_empty());
     core::mem::forget(r);
@@ -859,8 +854,6 @@ fn group_context_case(gid: &[u8], th: &[u8], cth: &[u8], ext: Option<&[u8]>) {
     let enc = c.mls_encode_to_vec();
     assert!(enc.is_ok());
     let enc = enc.ok().unwrap();
-    kani::cover!(ext.is_some() && gid.len() == 2 && cth.len() == 2);
-    kani::cover!(ext.is_none() && gid.is_empty());
     assert!(bytes_eq(&enc, &rfc_group_context(&c)));
     core::mem::forget(c);
 }
@@ -915,7 +908,6 @@ fn c13_get_pre_epoch_secret() {
     let r = get_pre_epoch_secret(&p, &psk, &js);
     assert!(r.is_ok());
     let o = r.ok().unwrap();
-    kani::cover!(true);
     assert!(p.calls() == 1);
     assert!(p.is(0, Op::Extract, &joiner, &psk_bytes, 0));
     assert!(is_out(&o, 1, NH));
@@ -947,7 +939,6 @@ fn c13_from_joiner() {
     let r = KeySchedule::from_joiner(&p, &js, &ctx, TREE_SIZE, &psk);
     assert!(r.is_ok());
     let r = r.ok().unwrap();
-    kani::cover!(true);
 
     assert!(p.is(0, Op::Extract, &joiner, &psk_bytes, 0));
     let info = rfc_kdf_label(NH as u16, b"epoch", &rfc_group_context(&ctx));
@@ -976,7 +967,6 @@ fn c13_from_key_schedule() {
     let r = KeySchedule::from_key_schedule(&last, &commit_secret, &ctx, TREE_SIZE, &psk, &p);
     assert!(r.is_ok());
     let r = r.ok().unwrap();
-    kani::cover!(true);
 
     let gc = rfc_group_context(&ctx);
     assert!(p.is(0, Op::Extract, &init, &commit, 0));
@@ -1003,7 +993,6 @@ fn c13_welcome_secret() {
     let r = WelcomeSecret::from_joiner_secret(&p, &js, &psk);
     assert!(r.is_ok());
     let w = r.ok().unwrap();
-    kani::cover!(true);
     assert!(p.calls() == 4);
     assert!(p.is(0, Op::Extract, &joiner, &psk_bytes, 0));
     assert!(p.is(1, Op::Expand, &out(1, NH), &rfc_kdf_label(NH as u16, b"welcome", &[]), NH));
@@ -1034,7 +1023,6 @@ fn c13_export_secret_bounded_4() {
         let r = ks.export_secret(label, &context, len, &p);
         assert!(r.is_ok());
         let o = r.ok().unwrap();
-        kani::cover!(label.len() == 4 && context.len() == 4 && len == 300);
         assert!(p.calls() == 3);
         let d = p.find(Op::Expand, &exporter, &rfc_kdf_label(NH as u16, label, &[]), NH);
         let h = p.find(Op::Hash, &[], &context, 0);
@@ -1060,7 +1048,6 @@ fn c13_export_secret_deleted() {
     ks.exporter_secret = Zeroizing::new(any_exact::<NH>());
     ks.delete_exporter();
     let r = ks.export_secret(b"ab", b"c", kani::any(), &p);
-    kani::cover!(true);
     assert!(matches!(r, Err(MlsError::ExporterDeleted)));
     assert!(p.calls() == 0);
     core::mem::forget((r, ks));
